@@ -300,6 +300,19 @@ Section Conv.
     if is_code_cont (c_mode c) then body c
     else d <- body (with_mode c LCodeCont) ;; ret (optional_paren d [40] [41]).
 
+  (* util.rs has_free_line_comment: a line comment outside of any nested parentheses, brackets or braces *)
+  Fixpoint has_free_line_comment (t : tree) : bool :=
+    match t with
+    | Leaf _ _ _ => false
+    | Inner _ cs _ =>
+        existsb (fun c =>
+                   match kind_of c with
+                   | KLineComment => true
+                   | KParenthesized | KArray | KDict | KDestructuring | KArgs | KParams | KCodeBlock | KContentBlock => false
+                   | _ => has_free_line_comment c
+                   end) cs
+    end.
+
   Definition is_paren_needed (t : tree) : bool := negb (kin (kind_of t) PAREN_NOT_NEEDED).
 
   Definition is_chainable_binary (t : tree) : bool :=
@@ -681,7 +694,8 @@ Section Conv.
             else ret (la, fi_none)
         | LaBody =>
             if is_expr (bt child) then
-              let use_braces := if kind_eqb (bk child) KBinary then negb (is_chainable_binary (bt child)) else true in
+              let use_braces := negb (has_free_line_comment (bt child)) &&
+                                (if kind_eqb (bk child) KBinary then negb (is_chainable_binary (bt child)) else true) in
               d <- convert_expr_with_optional_paren c child use_braces ;;
               ret (la, fi_spaced d)
             else ret (la, fi_none)
@@ -796,7 +810,7 @@ Section Conv.
   Definition convert_params (t : tree) (kids : list bundle) (c : ctx) (is_unnamed : bool) : M doc :=
     let c := with_mode c LCodeCont in
     let is_single_simple :=
-      is_unnamed &&
+      is_unnamed && negb (existsb is_comment_b kids) &&
       is_only_one_and (filter (fun b => is_param (bt b)) kids)
                       (fun b => kind_eqb (bk b) KUnderscore ||
                                 (is_expr (bt b) && negb (kind_eqb (bk b) KParenthesized))) in
@@ -1178,7 +1192,13 @@ Section Conv.
         | [] => ret prefix_doc
         | _ =>
             d <- convert_import_items c nodes ;;
-            ret (append (append prefix_doc space) d)
+            (* a line comment that ends the prefix keeps its line to itself *)
+            let ends_with_line_comment :=
+              match find (fun b => negb (kind_eqb (bk b) KSpace)) (rev prefix_part) with
+              | Some b => kind_eqb (bk b) KLineComment
+              | None => false
+              end in
+            ret (append (append prefix_doc (if ends_with_line_comment then hardline else space)) d)
         end
     end.
 
